@@ -138,8 +138,8 @@ CLAIMED = {
          "with int16 deltas), and of cmap formats 12 and 13 (sort, run detection, group records, header with its length checks, group "
          "expansion, the character map built from it: the compiled subtable decodes to the same map sorted by code with glyph 0 meaning "
          "not mapped; the run-length grouping loses nothing for ANY pair list), and of the component records of composite glyphs (argument "
-         "widths, the three transform forms, the flag word: decode after encode is the identity), for all metric/offset/point lists, character "
-         "maps and components. Tied to "
+         "widths, the three transform forms, the flag word: decode after encode is the identity), and of kern format 0 (both headers, sorted "
+         "records, signed values), for all metric/offset/point lists, character maps, components and kerning pair sets. Tied to "
          "the table classes by byte-exact correspondence incl. malformed data for the decoders. The remaining codecs (cmap 0/2/4/6/14, simple glyphs with every flag/"
          "repeat pattern and both coordinate compilers, components, whole glyf/loca tables around the 0x20000 limit with every padding, gvar "
          "tuple variations with 1..300 explicit points, name, kern) are implementation round-trip sweeps on generated contents (testing). "
